@@ -224,7 +224,7 @@ def idnaEncodeAscii (h : Bytes) : R Bytes :=
     let init := labels.dropLast
     let last := labels.getLast?.getD []
     if init.all (fun l => 0 < l.length && l.length < 64) && last.length < 64 then .ok h
-    else .error (.escape "UnicodeError")
+    else .error .invalidURI          -- `except UnicodeError: raise InvalidURI` (F15 repair)
 
 def composeAuthority (P : Sets) (u : Uri) : R Bytes :=
   if u.host.isEmpty then .ok []
